@@ -324,15 +324,10 @@ func goCompletion(g int, allowed [nCls]bool, anything bool) (string, bool) {
 }
 
 func init() {
-	dec := func(e *Engine, prop string) ([]*Obligation, []string, error) {
-		obls := numLemma(e, numLemmaSite{pkg: "decoder", table: "floatTable", name: "decoder.numberToken"})
-		return obls, []string{"assumed: strconv.ParseFloat(s,64) returns a nil error only for Go decimal float literals when s is over the alphabet 0-9 . e E + - (bounded cross-check in the thorough tier)"}, nil
-	}
-	lemmaRegistry["C05"] = append(lemmaRegistry["C05"], dec)
-	enc := func(e *Engine, prop string) ([]*Obligation, []string, error) {
-		obls := numLemma(e, numLemmaSite{pkg: "encoder", table: "floatTable", name: "encoder.compactNumber"})
-		return obls, []string{"assumed: strconv.ParseFloat(s,64) returns a nil error only for Go decimal float literals when s is over the alphabet 0-9 . e E + -"}, nil
-	}
-	lemmaRegistry["C18"] = append(lemmaRegistry["C18"], enc)
-	// encoder.AppendNumber is no longer a character-class check: it is under a function contract (isValidNumber)
+	// The three sites this lemma was written for (decoder number tokens, encoder.compactNumber,
+	// encoder.AppendNumber) now validate the token with a grammar function that is under a
+	// function contract (isValidNumberToken / isValidNumber, proved sound against the number DFA),
+	// so the character-class + ParseFloat argument is no longer what the code relies on. The
+	// product-automaton exploration is kept for the thorough tier as a cross-check of the claim
+	// "first . floatTable* /\ goFloat is NOT a subset of jsonNumber" that motivated the repair.
 }
